@@ -341,6 +341,56 @@ def selftest():
     assert out.shape == (2, 3) and np.array_equal(out, exp), out
 
 
+@st.composite
+def axis_cup_cases(draw, tier):
+    return {"dims": draw(st.sampled_from(
+        [[2], [2, 2], [3, 3], [2, 3, 2], [2, 2, 2], [3, 2, 2, 3]])),
+        "z": draw(st.integers(-1, 1)),
+        "vals": draw(st.lists(st.integers(-2, 2), min_size=8, max_size=8))}
+
+
+def check_axis_cups(case):
+    """ A basic type sent to several axes (a palindromic dimension): cups and
+    caps pair the axes in nested order, as the cups of a composite type do,
+    and the snakes evaluate to the identity. """
+    import itertools
+    from discopy import rigid, tensor
+    dims, n = case["dims"], len(case["dims"])
+    x = rigid.Ty("x")
+    t = x.l if case["z"] < 0 else x.r if case["z"] > 0 else x
+    F = tensor.Functor({x: tensor.Dim(*dims)}, {})
+    nested = np.zeros(tuple(dims) + tuple(dims[::-1]), dtype=complex)
+    for idx in itertools.product(*[range(k) for k in dims]):
+        nested[tuple(idx) + tuple(idx[::-1])] = 1
+    size = int(np.prod(dims))
+
+    def arr(v):
+        return np.asarray(v.array, dtype=complex)
+    for cup in (rigid.Cup(t, t.r), rigid.Cup(t.l, t)):
+        got = arr(F(cup))
+        require(got.size == nested.size and np.array_equal(
+            got.reshape(nested.shape), nested), "C09:cup-of-several-axes",
+            lambda: "F({}) with x -> Dim{}".format(cup, tuple(dims)))
+    for cap in (rigid.Cap(t, t.l), rigid.Cap(t.r, t)):
+        got = arr(F(cap))
+        require(got.size == nested.size and np.array_equal(
+            got.reshape(nested.shape), nested), "C09:cap-of-several-axes",
+            lambda: "F({}) with x -> Dim{}".format(cap, tuple(dims)))
+        require(np.array_equal(arr(F(cap.dagger())).reshape(nested.shape),
+                               nested), "C09:cap-dagger-of-several-axes",
+                lambda: str(cap))
+    snakes = [rigid.Cap(t, t.l) @ rigid.Id(t) >> rigid.Id(t) @ rigid.Cup(
+        t.l, t), rigid.Id(t) @ rigid.Cap(t.r, t) >> rigid.Cup(t, t.r)
+        @ rigid.Id(t)]
+    for snake in snakes:
+        got = arr(F(snake)).reshape(size, size)
+        require(np.array_equal(got, np.eye(size)), "C09:snake-of-several-"
+                "axes", lambda: "F({}) with x -> Dim{}: {}".format(
+                    snake, tuple(dims), got.tolist())[:800])
+    return dict(nt=n >= 2, labels=["axes%d" % n],
+                show="x -> Dim{} z={}".format(tuple(dims), case["z"]))
+
+
 core.register("C09", [
     Facet("rigid_functor", rigid_cases, check_rigid, n_quick=1600,
           shards_quick=8, rule=RULE),
@@ -352,6 +402,9 @@ core.register("C09", [
           "types sent to dimensions with 0-2 axes; reference evaluation of "
           "the axis-expanded diagram; non-trivial = a swap over a type with "
           ">= 2 axes"),
+    Facet("axis_cups", axis_cup_cases, check_axis_cups, n_quick=60,
+          rule="cups, caps and snakes on a basic type sent to a palindromic "
+          "dimension of 1-4 axes against the nested pairing"),
     Facet("tensor_diagrams", tensor_cases, check_tensor, n_quick=1200,
           shards_quick=4, rule="tensor diagrams with boxes, daggered boxes, "
           "swaps, spiders, bubbles (elementwise functions) and sums: eval, "
